@@ -249,6 +249,8 @@ def ckey(c):
         return "in(%s,%s..=%s)" % (vkey(c.a[0]), c.a[1], c.a[2])
     if c.op == "sym":
         return "symc(%s)" % (c.a[0],)
+    if c.op == "any":
+        return "%s(%s)" % ("any" if c.a[1] else "none", ranges_str(c.a[0]))
     return c.op
 
 
@@ -262,11 +264,19 @@ def cnot(c):
             return Cond("false")
         if c.op == "false":
             return Cond("true")
+        if c.op == "any":
+            return Cond("any", c.a[0], not c.a[1])
         if c.op == "and":
             return Cond("or", *[cnot(x) for x in c.a])
         if c.op == "or":
             return Cond("and", *[cnot(x) for x in c.a])
     return Cond("not", c)
+
+
+def mkin(v, lo, hi):
+    if isinstance(v, Bits) and v.is_const():
+        return Cond("true" if lo <= v.value() <= hi else "false")
+    return Cond("in", v, lo, hi)
 
 
 def mkcmp(op, a, b):
@@ -290,7 +300,12 @@ def mkcmp(op, a, b):
             # drop zero bits entirely: only the set of input bits matters
             ins = set(x for x in a.b if x != 0)
             if ins and all(isinstance(x, tuple) for x in ins):
-                return Cond("cmp", op, Sym("any(" + ranges_str(ins) + ")"), Bits.const(0, 1))
+                return Cond("any", frozenset(ins), op == "Ne")
+        # single input bit compared with 1
+        if b.is_const() and b.value() == 1 and op in ("Eq", "Ne"):
+            nz = [x for x in a.b if x != 0]
+            if len(nz) == 1 and isinstance(a.b[0], tuple):
+                return Cond("any", frozenset([a.b[0]]), op == "Eq")
     return Cond("cmp", op, a, b)
 
 
@@ -321,13 +336,13 @@ def oracle_cond(o, root):
         for hi, lo in o["any"]:
             for j in range(lo, hi + 1):
                 ins.add((root, j))
-        return Cond("cmp", "Ne", Sym("any(" + ranges_str(ins) + ")"), Bits.const(0, 1))
+        return Cond("any", frozenset(ins), True)
     if "none" in o:
         ins = set()
         for hi, lo in o["none"]:
             for j in range(lo, hi + 1):
                 ins.add((root, j))
-        return Cond("cmp", "Eq", Sym("any(" + ranges_str(ins) + ")"), Bits.const(0, 1))
+        return Cond("any", frozenset(ins), False)
     if "cmp" in o:
         hi, lo = o["bits"]
         a = Bits.inp(root, lo, hi - lo + 1)
@@ -599,7 +614,7 @@ class Evaluator:
         if k == "Range":
             if isinstance(v, Bits):
                 hi = pat["hi"] if pat["incl"] else pat["hi"] - 1
-                return Cond("in", v, pat["lo"], hi), binds
+                return mkin(v, pat["lo"], hi), binds
         if k == "Or":
             cs = [self.pat_cond(p, v, env)[0] for p in pat["pats"]]
             return self.logic("or", *cs), binds
@@ -662,6 +677,12 @@ class Evaluator:
                 continue
             seen.add(kk)
             out.append(c)
+        # or of any-sets / and of none-sets merge into one set
+        pos = (op == "or")
+        merge = [c for c in out if c.op == "any" and c.a[1] == pos]
+        if len(merge) > 1:
+            allbits = frozenset().union(*[c.a[0] for c in merge])
+            out = [c for c in out if not (c.op == "any" and c.a[1] == pos)] + [Cond("any", allbits, pos)]
         if not out:
             return Cond(ident)
         if len(out) == 1:
@@ -851,13 +872,21 @@ class Evaluator:
             op = {"lt": "Lt", "le": "Le", "gt": "Gt", "ge": "Ge"}.get(name)
             if op:
                 return self.binop(op, args[0], args[1], "bool")
+        OPS = {"core::ops::arith::Rem::rem": "Rem", "core::ops::arith::Add::add": "Add", "core::ops::arith::Sub::sub": "Sub",
+               "core::ops::arith::Mul::mul": "Mul", "core::ops::arith::Div::div": "Div", "core::ops::bit::BitAnd::bitand": "BitAnd",
+               "core::ops::bit::BitOr::bitor": "BitOr", "core::ops::bit::BitXor::bitxor": "BitXor", "core::ops::bit::Shl::shl": "Shl",
+               "core::ops::bit::Shr::shr": "Shr"}
+        if fn in OPS and len(args) == 2:
+            return self.binop(OPS[fn], args[0], args[1], n["ty"])
         if fn.startswith("core::ops::bit::Not::not"):
             v = args[0]
             return cnot(self.as_cond(v)) if isinstance(v, Cond) else Sym("not(%s)" % vkey(v))
         if fn.endswith("RangeInclusive::<Idx>::contains") or fn.endswith("Range::<Idx>::contains") or "::contains" in fn and isinstance(args[0], Agg):
             r = self.range_of(args[0])
             if r and isinstance(args[1], Bits):
-                return Cond("in", args[1], r[0], r[1] - 1)
+                return mkin(args[1], r[0], r[1] - 1)
+        if fn.startswith("core::ops::range::RangeInclusive::<Idx>::") and name in ("start", "end") and isinstance(args[0], Agg):
+            return args[0].fields.get(name, Sym("range." + name))
         if fn.startswith("core::ops::range::RangeInclusive::<Idx>::new"):
             return Agg("core::ops::range::RangeInclusive", "RangeInclusive", {"start": args[0], "end": args[1]})
         if fn.startswith("core::convert::Into::into") or fn.startswith("core::convert::From::from"):
